@@ -3,12 +3,15 @@ from fractions import Fraction
 import framework as fw
 import corelane as cl
 import oracle as orc
-from common import Rng, frac_of
+from common import Rng, frac_of, f64_bits, bits_f64
+
+SUB = Fraction(1, 2 ** 1073)          # two steps of the subnormal grid: the rounding of f64 where relative precision ends
 
 PID = "C01"
 BINS = ["x_core"]
 RULE = ("every reference-unit type of the executor universe (catalogue, AmountT, astro [f64], synthetic) x ALL ordered unit pairs "
-        "incl. the diagonal (exhaustive) x seeded amounts of the tolerance-safe classes, both back-ends; a cell = "
+        "incl. the diagonal (exhaustive) x seeded amounts of the tolerance-safe classes plus, for f64, subnormal amounts and amounts just "
+        "above the smallest normal number (judged with an additional absolute tolerance of two subnormal steps), both back-ends; a cell = "
         "(backend,type,from,to,amount class); non-trivial = source unit != target unit with a non-zero amount")
 
 
@@ -32,6 +35,15 @@ def work(task):
         for (x, cls) in cl.safe_amounts(rng, b, ent, u, task["n"]):
             cases.append({"ty": ty, "u": u, "v": v, "x": x, "cls": cls,
                           "reqs": [{"op": "convert", "ty": ty, "x": x, "u": u, "v": v}]})
+        if b == "f64":
+            for cls in ("subnormal", "min_normal"):
+                if cls == "subnormal":
+                    bits = rng.randint(1, (1 << 52) - 1) >> rng.choice([0, 0, 0, 8, 30, 51])
+                else:
+                    bits = (1 << 52) + (rng.randint(0, (1 << 52) - 1) >> rng.choice([0, 20, 52]))
+                x = "%016x" % (max(bits, 1) | (rng.choice([0, 1]) << 63))
+                cases.append({"ty": ty, "u": u, "v": v, "x": x, "cls": cls,
+                              "reqs": [{"op": "convert", "ty": ty, "x": x, "u": u, "v": v}]})
     fw.run_cases(part, task["bin"], cases, judge, {"backend": b, "ty": ty, "entry": ent, "module": "c01"})
     return part
 
@@ -70,6 +82,9 @@ def judge(part, case, resps, ctx):
     got = frac_of(conv["a"], b)
     want = x * su / sv
     tol = orc.conv_tol(b, x, su, sv)
+    tiny = case["cls"] in ("subnormal", "min_normal")
+    if tiny:
+        tol += SUB
     ratio = orc.check_close(got, want, tol)
     part.ratio(ratio, {"ty": ty, "x": case["x"], "from": uu["dbg"], "to": vu["dbg"], "backend": b})
     if ratio > 1:
@@ -83,7 +98,9 @@ def judge(part, case, resps, ctx):
         if back["u"] != uu["dbg"]:
             viol("unit", "round trip carries unit %s, requested %s" % (back["u"], uu["dbg"]))
         gb = frac_of(back["a"], b)
-        if b == "f64":
+        if b == "f64" and tiny:
+            tolb = tol * sv / su + abs(x) * orc.F64_REL + SUB
+        elif b == "f64":
             tolb = abs(x) * orc.F64_REL * 2
         else:
             e1 = orc.dec_conv_bound(abs(x), su, sv)
